@@ -291,6 +291,8 @@ def _parent_children(t, n):
 
 def _traverse(t, n, root, reached, order):
     par = t.parent
+    # an abandoned traversal (first element only, generator dropped) must not influence the complete one
+    call(lambda: next(iter(t.traverse(order)), None))
     o = call(lambda: list(itertools.islice(t.traverse(order), 2 * n + 3)))
     sub = "traverse." + order
     if not o.ok:
@@ -644,6 +646,9 @@ def _check_mesh(spec, xmax, tier, fam, rep: Report):
                     arg = None if Sv is None else set(Sv)
                     det = {"call": f"EdgeSpanningTree(mesh, {root}, avoid_boundary={ab}, avoid_edges={Sv!r})()"}
                     o = call(lambda: T.EdgeSpanningTree(mesh, root, avoid_boundary=ab, avoid_edges=arg)())
+                    if arg is not None and arg != Sv:
+                        rep.violation("C10.exclusion_set_unchanged", "EdgeSpanningTree", "side_effect:argument_changed", icls,
+                                      dict(det, passed=sorted(Sv), afterwards=sorted(arg, key=repr)))
                     if not built(o, "tree_is_built", "EdgeSpanningTree", icls, det):
                         continue
                     verdict(judge_bfs_tree(o.value, n, root, pairs, all_epairs, dist, rep, xp),
@@ -683,6 +688,9 @@ def _check_mesh(spec, xmax, tier, fam, rep: Report):
                     arg = None if Sv is None else set(Sv)
                     det = {"call": f"{cname}(mesh, {root}, {Sv!r})()"}
                     o = call(lambda: cls(mesh, root, arg)())
+                    if arg is not None and arg != Sv:
+                        rep.violation("C10.exclusion_set_unchanged", cname, "side_effect:argument_changed", icls,
+                                      dict(det, passed=sorted(Sv), afterwards=sorted(arg, key=repr)))
                     if not built(o, "tree_is_built", cname, icls, det):
                         continue
                     verdict(judge_bfs_tree(o.value, ne, root, pairs, all_pairs, dist, rep, xp),
@@ -846,6 +854,9 @@ def _check_mesh(spec, xmax, tier, fam, rep: Report):
                 rep.violation("C10.polyline_export", cname + ".build_tree_as_polyline", "mismatch:edges", icls,
                               dict(det, polyline_edges=pe, parent_pairs=want, **mtag))
                 return
+            from mc import families as _Fam
+            if _Fam.STALE[0]:
+                continue      # stale-blackboard mode: the export documents that it reuses a stored 'barycenter' attribute
             if len(pv) != ne or any(abs(a - float(b)) > 1e-9 * (1 + abs(float(b))) for p, q in zip(pv, want_pts) for a, b in zip(p, q)):
                 rep.violation("C10.polyline_export", cname + ".build_tree_as_polyline", "mismatch:vertices", icls,
                               dict(det, polyline_vertices=pv, **mtag))
@@ -925,3 +936,9 @@ def warm_variant(task, tier):
     """Tasks that are also run on meshes whose attribute blackboard is already filled with (valid) persistent attributes
     (mc/families.py WARM; the runner appends ':warm_attribute_blackboard' to the input class of anything found there)."""
     return bool(task.get("fam") in ("graph", "tet"))
+
+
+def stale_variant(task, tier):
+    """Tasks also run on meshes with a stale attribute blackboard (lengths / barycentres computed on another geometry):
+    weights='length' must be measured on the current geometry."""
+    return bool(task.get("fam") in ("graph", "tet", "holey3"))
